@@ -29,6 +29,8 @@ func c01(p *core.Prog, r *core.Report) {
 	c01Reader(p, r)
 	r.Rule("C01-R8", "E6 provenance/guards", 3, "io contracts at the argument seam: Write reports the total, Read the bytes copied; EnsureEmpty reports trailing bytes whatever error accompanies them")
 	c01IO(p, r)
+	// a failed write must not be turned into a complete (truncated) argument: the helper closes the writer only after a successful write (shared with C10-R1)
+	c10HelperClose(p, r, "C01-R8")
 	// the arguments only arrive if every fragment's checksum is the checksum
 	// of its own bytes: pooled checksum objects are not read after release and
 	// relays re-stamp what they rewrite (shared with C02-R4 / C02-R6)
@@ -39,6 +41,7 @@ func c01(p *core.Prog, r *core.Report) {
 	r.Rule("C01-R10", "E6 paths / E2 ownership", 3, "delivered frames are read before the connection error; codec scratch buffers are not used after release")
 	recvPriority(p, r, "C01-R10")
 	noUseAfterPut(p, r, "C01-R10", "/typed")
+	releasedByOwnersOnly(p, r, "C01-R10")
 	r.Rule("C01-R9", "E6 who-may-call + ordering", 6, "fragments carry the checksum of their own bytes (shared with C02)")
 	r.Alias("C02-R4", "C01-R9")
 	r.Alias("C02-R6", "C01-R9")
